@@ -15,8 +15,10 @@ def build_cases(rng, tier):
         opts = r.pick(OPTS)
         if be == 'cxx' and "-CF" in opts:
             opts = ["-Cf"]
-        c = streamprog.gen_stream_case(r, "w%d" % i, {'eof', 'wrap', 'stack'} if i % 2 else {'eof', 'wrap', 'edit'}, backend=be,
-                                       flex_opts=opts, nsources=r.pick([1, 2, 3, 4]))
+        focus = {'eof', 'wrap', 'stack'} if i % 2 else {'eof', 'wrap', 'edit'}
+        if i % 3 == 0:
+            focus = {'eof', 'post'} | ({'stack'} if i % 2 else set())
+        c = streamprog.gen_stream_case(r, "w%d" % i, focus, backend=be, flex_opts=opts, nsources=r.pick([1, 2, 3, 4]))
         cases.append(c)
     return cases
 
